@@ -55,6 +55,25 @@ def crashH (args : List String) : Option String := do
     some (";".intercalate (l.map (fun (lab, s) => s!"{lab}={showFS s}")))
   | _ => none
 
+/-- `autosave.unwind base new bak w` → labelled states after an exception at each crash point of the
+`try: … finally: os.replace(.new, base)` variant (handler run on the directory left behind). -/
+def unwindH (args : List String) : Option String := do
+  match args with
+  | [b, n, k, w] =>
+    let fs ← parseFS b n k
+    let l := unwindStatesL fs (finallyBody (← w.toNat?)) finallyCleanup
+    some (";".intercalate (l.map (fun (lab, s) => s!"{lab}={showFS s}")))
+  | _ => none
+
+/-- `autosave.aliased base w` → labelled crash states of an in-place save (`.new` == advertised). -/
+def aliasedH (args : List String) : Option String := do
+  match args with
+  | [b, w] =>
+    let fs ← parseFS b "a" "a"
+    let l := crashStatesL fs 0 (saveAliased (← w.toNat?))
+    some (";".intercalate (l.map (fun (lab, s) => s!"{lab}={showFS s}")))
+  | _ => none
+
 /-- Counter machine: state = number of progress calls done, finished at `nsteps`. -/
 def counter (nsteps : Nat) : Machine Nat Nat := ⟨(· + 1), (· ≥ nsteps), id, fun _ r => r⟩
 
@@ -104,7 +123,7 @@ def schedH (args : List String) : Option String := do
   | _ => none
 
 def handlers : List (String × (List String → Option String)) :=
-  [("autosave.ops", opsH), ("autosave.crash", crashH), ("autosave.run", runH),
+  [("autosave.ops", opsH), ("autosave.crash", crashH), ("autosave.unwind", unwindH), ("autosave.aliased", aliasedH), ("autosave.run", runH),
    ("autosave.resume", resumeH), ("autosave.sched", schedH)]
 
 end EmuVerif.Drv.Autosave
